@@ -20,6 +20,10 @@ MANIFEST = dict(
     technique="Lean 4 proof (induction over the frame list, refinement loop -> filterMap, encode/decode round trip) + "
               "model/implementation correspondence on real pcap files",
     design="DESIGN.md §6 C17")
+MANIFEST["note"] += (" Constants and limits of the C++ source that the model restates (translator/gen_limits.py -> Gen/Limits.lean: "
+                     "compiled probe + preprocessed function bodies at named anchors) are tied to the model's numerals by the "
+                     "theorems of lean/TinsModel/Props/Limits/C17.lean (audit: Audit/LimitsC17.lean); tools/LIMITS-INVENTORY.md lists "
+                     "what is tied and what is not.")
 
 # ----------------------------------------------------------------------------------------------- tables
 
